@@ -118,9 +118,56 @@ func genC14ManyPeers(p *Plan, r *RNG) {
 	p.QuietNS = 10 * sec
 }
 
+// genC14Realloc: the application closes its relayed socket and allocates again on the same
+// client - at once, or seconds later - while the answer to the Refresh(0) of the Close is
+// lost. The second allocation is a live client's: it stays.
+func genC14Realloc(p *Plan, r *RNG) {
+	baseSrvConfig(p, r)
+	p.Flavor = "e2e-realloc"
+	p.Cfg.LatCSns = int64(r.Range(1, 8))*ms + 3
+	p.Cfg.LatSPns = int64(r.Range(1, 8))*ms + 5
+	p.Cfg.RTOms = r.PickInt([]int{100, 200})
+	p.Cfg.Extra = map[string]int64{}
+	p.Clients = []ClientSpec{{ID: "c1", Addr: "10.0.1.1:4000", User: "u1", Pass: "pw-one", Kind: "real"}}
+	p.Peers = []PeerSpec{{ID: "p1", Addr: "10.0.2.1:5000"}}
+	peer := p.Peers[0].Addr
+	add := func(o Op) { p.Ops = append(p.Ops, o) }
+	add(Op{Actor: "c1", Kind: "alloc", At: gap(50 * ms)})
+	add(Op{Actor: "", Kind: "wait", At: gap(sec)})
+	add(Op{Actor: "c1", Kind: "writeto", At: gap(500 * ms), A: OpArgs{Peer: peer, Len: 30}})
+	add(Op{Actor: "p1", Kind: "peer_send", At: gap(int64(r.Range(6, 20)) * sec), A: OpArgs{Target: "c1", Len: 40}})
+	add(Op{Actor: "c1", Kind: "close_relay", At: gap(int64(r.Range(1, 5)) * sec)})
+	var tClose int64
+	for _, o := range p.Ops {
+		tClose += o.At.GapNS
+	}
+	if r.Chance(3, 4) {
+		// the answer to the Refresh(0) does not get through
+		d := r.PickI64([]int64{60 * ms, 150 * ms, 700 * ms})
+		p.NetFaults = append(p.NetFaults, NetFault{M: Match{Flow: "srv>c1"}, Do: "partition", Arg: d, AtNS: tClose})
+		add(Op{Actor: "c1", Kind: "alloc", At: gap(d + r.PickI64([]int64{10 * ms, 100 * ms, sec, 3 * sec, 12 * sec}))})
+	} else {
+		add(Op{Actor: "c1", Kind: "alloc", At: gap(r.PickI64([]int64{ms, 50 * ms, sec, 12 * sec}))})
+	}
+	add(Op{Actor: "", Kind: "wait", At: gap(1500 * ms)})
+	add(Op{Actor: "c1", Kind: "writeto", At: gap(500 * ms), A: OpArgs{Peer: peer, Len: 31}})
+	for k := r.Range(2, 5); k > 0; k-- {
+		if r.Chance(1, 2) {
+			add(Op{Actor: "c1", Kind: "writeto", At: gap(int64(r.Range(3, 40)) * sec), A: OpArgs{Peer: peer, Len: r.Range(20, 100)}})
+		} else {
+			add(Op{Actor: "p1", Kind: "peer_send", At: gap(int64(r.Range(6, 40)) * sec), A: OpArgs{Target: "c1", Len: r.Range(20, 100)}})
+		}
+	}
+	p.QuietNS = 10 * sec
+}
+
 func genC14(p *Plan, r *RNG) {
 	if r.Chance(1, 30) {
 		genC14ManyPeers(p, r)
+		return
+	}
+	if r.Chance(1, 12) {
+		genC14Realloc(p, r)
 		return
 	}
 	if r.Chance(1, 6) {
